@@ -7,6 +7,7 @@
 //! library-built object is additionally verified by the harness' own CMS
 //! verifier (`der::CmsView::verify`).
 
+use std::cell::RefCell;
 use std::sync::OnceLock;
 
 use bcder::encode::Values;
@@ -22,7 +23,7 @@ use rpki::repository::resources::{Asn, Prefix};
 use rpki::repository::roa::{Roa, RoaBuilder};
 use rpki::repository::sigobj::{SignedObject, SignedObjectBuilder};
 use rpki::repository::tal::TalInfo;
-use rpki::repository::x509::{Time, Validity};
+use rpki::repository::x509::{Serial, Time, Validity};
 use rpki::uri;
 use serde::{Deserialize, Serialize};
 
@@ -32,18 +33,33 @@ use crate::gen::{dense_u32, pick_idx, U128};
 use crate::keys::{self, PoolSigner, POOL_SIZE};
 
 pub const RULE: &str = "generic: independent-writer objects (der.rs) with content types ROA/MFT/ASPA/GBR or arbitrary OIDs of \
-1..40 octets (signed attributes 99..138 bytes, both sides of the 127/128 boundary), contents 0..4 KiB, all four \
-algorithm-identifier variants, UTCTime/GeneralizedTime signing time, EE resources missing/inherit/blocks (inside, equal, \
-outside the issuer; Refuse/Trim), evaluation time at -1s/edge/+1s/mid/far of the EE validity or through process() with a \
-CRL callback; plus one of 14 single-point tampers; oracle = accept iff (no tamper and time in window and EE resources \
-acceptable and callback Ok). roa/aspa/manifest: typed contents from the independent writer and from RoaBuilder / \
-AspaBuilder / ManifestContent::into_manifest; ROA prefixes drawn relative to the EE resources (equal, more specific, \
-wider, other, other family); oracle adds coverage by an interval model. built: SignedObjectBuilder::finalize with \
-arbitrary content types; oracle = harness' own CMS verifier (DER SET OF re-encoding + RSA via aws-lc-rs) accepts and the \
-library accepts iff in window. non-trivial = signed attributes >= 128 bytes, or typed content with >= 2 prefixes / \
-providers / entries, or any tamper.";
+1..560 octets: 8/20 free (registered types, short OIDs: signed attributes 99..138 octets), 12/20 aimed at a size of the \
+signed-attribute set - uniform 99..140 and 100..600, forced 126..129 (one/two length octets) and 254..258 (two/three length \
+octets; exactly 256 in about 2.7 % of all cases), and the sizes where the OID / SET / SEQUENCE lengths change form; contents \
+0..4 KiB, all four algorithm-identifier variants, UTCTime/GeneralizedTime signing time, EE resources missing/inherit/blocks \
+(inside, equal, outside the issuer; Refuse/Trim), evaluation time at -1s/edge/+1s/mid/far of the EE validity through \
+validate_at, or through process() with a CRL callback that looks the serial of the certificate it is handed up in a \
+revocation set (EE serial listed or not, issuer serial listed or not) and records which certificate it was asked about; \
+plus one of 15 single-point tampers, among them message-digest attributes of the wrong length that agree with the real \
+digest where they overlap (first 0/1/16/31 octets; digest + 1..8 octets; empty digest with the content swapped after \
+signing), signed correctly by the EE key; oracle = accept iff (no tamper and time in window and EE resources acceptable and \
+EE serial not revoked), and the callback is asked exactly about the embedded EE certificate. roa/aspa/manifest: typed \
+contents from the independent writer and from RoaBuilder / AspaBuilder / ManifestContent::into_manifest (the latter \
+tampered by bit flips or re-wrapped by der.rs with a wrong-length digest re-signed by the EE's pool key); ROA prefixes \
+drawn relative to the EE resources (equal, more specific, wider, other, other family); oracle adds coverage by an interval \
+model; manifests go through Manifest::validate_at (sid and all other tampers). built: SignedObjectBuilder::finalize with \
+the same content-type size classes; oracle = harness' own CMS verifier (DER SET OF re-encoding + RSA via aws-lc-rs) accepts \
+and the library accepts iff in window and untampered. non-trivial = signed attributes >= 128 bytes, or typed content with \
+>= 2 prefixes / providers / entries, or any tamper.";
 
 pub const SIG_F12: &str = "sigattrs-long-form-length";
+pub const SIG_CRL_CERT: &str = "c02:crl-callback-wrong-cert";
+
+/// Serial numbers of the certificates in play: trust anchors, EE certificates
+/// of `build_ee`, EE certificates made by the library's builders.
+const TA_SERIAL: u64 = 1;
+const EE_SERIAL: u64 = 2;
+const BUILDER_SERIAL: u64 = 3;
 
 //============ shared environment (also used by C14) ===========================
 
@@ -83,7 +99,7 @@ fn env() -> &'static Env {
         for i in 0..POOL_SIZE {
             let pk = signer.info(i);
             let mut ta = TbsCert::new(
-                1u64.into(),
+                TA_SERIAL.into(),
                 pk.to_subject_name(),
                 Validity::new(lib_time(ymd(2010, 1, 1)), lib_time(ymd(2090, 1, 1))),
                 None,
@@ -254,7 +270,7 @@ pub fn build_ee(spec: &EeSpec, fault: EeFault) -> Cert {
     let epk = signer.info(spec.key as usize);
     let u = rsync_uri();
     let mut ee = TbsCert::new(
-        2u64.into(),
+        EE_SERIAL.into(),
         ipk.to_subject_name(),
         Validity::new(lib_time(spec.nb), lib_time(spec.na)),
         None,
@@ -445,9 +461,14 @@ pub enum Ct {
     Mft,
     Aspa,
     Gbr,
-    /// 1.2.<arcs> (truncated to at most 40 content octets)
+    /// 1.2.<arcs> (truncated to at most `CT_MAX` content octets)
     Other(Vec<u32>),
 }
+
+/// Longest content-type OID (content octets) the writers are given: together
+/// with the digest and signing-time attributes this spans signed-attribute
+/// sets of up to about 670 octets (one-, two- and three-octet length forms).
+pub const CT_MAX: usize = 560;
 
 impl Ct {
     pub fn bytes(&self) -> Vec<u8> {
@@ -461,7 +482,7 @@ impl Ct {
                 a.extend(arcs.iter().map(|&x| x as u64));
                 loop {
                     let c = der::oid_content(&a);
-                    if c.len() <= 40 || a.len() <= 2 {
+                    if c.len() <= CT_MAX || a.len() <= 2 {
                         return c;
                     }
                     a.pop();
@@ -481,6 +502,86 @@ pub fn ct_strategy() -> BoxedStrategy<Ct> {
         4 => prop::collection::vec(dense_u32(), 0..10).prop_map(Ct::Other),
     ]
     .boxed()
+}
+
+/// Size of the signed-attribute set (content octets of the `[0]` field) of an
+/// object with the three RFC 6488 attributes, a content-type OID of `ct_len`
+/// content octets and the given signing time.
+pub fn attrs_len_for(ct_len: usize, st: TimeEnc) -> usize {
+    der::attrs_content_len(&[
+        der::attr_content_type(&vec![0u8; ct_len]),
+        der::attr_message_digest(&[0u8; 32]),
+        der::attr_signing_time(st),
+    ])
+}
+
+/// Smallest content-type OID length for which the attribute set has at least
+/// `target` octets (exactly `target` except where a length field grows).
+fn ct_len_for_target(target: usize, st: TimeEnc) -> usize {
+    let mut n = target.saturating_sub(106).max(1);
+    while n < CT_MAX && attrs_len_for(n, st) < target {
+        n += 1;
+    }
+    n
+}
+
+fn arc_octets(a: u32) -> usize {
+    match a {
+        0..=0x7f => 1,
+        0x80..=0x3fff => 2,
+        0x4000..=0x1f_ffff => 3,
+        0x20_0000..=0xfff_ffff => 4,
+        _ => 5,
+    }
+}
+
+/// Arcs for `Ct::Other` whose OID has exactly `n` content octets: a prefix of
+/// `arcs`, filled up with one-octet arcs.
+fn fit_arcs(arcs: &[u32], n: usize) -> Vec<u32> {
+    let mut out = Vec::new();
+    let mut len = 1; // 1.2 is one octet
+    for &a in arcs {
+        if len + arc_octets(a) > n {
+            break;
+        }
+        len += arc_octets(a);
+        out.push(a);
+    }
+    while len < n {
+        out.push((len % 128) as u32);
+        len += 1;
+    }
+    out
+}
+
+/// Content type and options drawn together: the size of the attribute set
+/// depends on both (UTCTime / GeneralizedTime signing time differ by two
+/// octets). 8 of 20 parts use `ct_strategy` (registered types and short
+/// OIDs), the rest aims at a target size of the signed-attribute set:
+/// anything in 99..=140 and 100..=600, exactly 126..=129 (one- to two-octet
+/// length), exactly 254..=258 (two- to three-octet length) and the sizes at
+/// which the lengths of the OID, of its SET and of the attribute SEQUENCE
+/// themselves change form.
+pub fn sized_ct_strategy() -> BoxedStrategy<(Ct, Opts)> {
+    let target = prop_oneof![
+        8 => Just(None),
+        2 => (99usize..=140).prop_map(Some),
+        2 => (126usize..=129).prop_map(Some),
+        3 => (254usize..=258).prop_map(Some),
+        4 => (100usize..=600).prop_map(Some),
+        1 => prop_oneof![218usize..=236, 354usize..=374].prop_map(Some),
+    ];
+    let arcs = prop_oneof![
+        3 => Just(Vec::new()),
+        2 => prop::collection::vec(prop_oneof![3 => 0u32..128, 1 => dense_u32()], 0..24),
+        1 => prop::collection::vec(0u32..128, 100..CT_MAX),
+    ];
+    (ct_strategy(), opts_strategy(), target, arcs)
+        .prop_map(|(free, opts, target, arcs)| match target {
+            None => (free, opts),
+            Some(t) => (Ct::Other(fit_arcs(&arcs, ct_len_for_target(t, opts.st()))), opts),
+        })
+        .boxed()
 }
 
 #[derive(Clone, Debug, Serialize, Deserialize)]
@@ -641,6 +742,86 @@ pub struct Flip {
     pub bit: u8,
 }
 
+/// A message-digest attribute whose value has the wrong *length* but agrees
+/// with the real digest wherever the two overlap. The attributes carrying it
+/// are signed correctly by the EE key, so only the digest condition fails.
+#[derive(Clone, Copy, Debug, PartialEq, Eq, Serialize, Deserialize)]
+pub enum DigestFault {
+    /// the first k (0..=31) octets of the real digest
+    Short(u8),
+    /// the real digest followed by n (1..=8) further octets
+    Long(u8),
+    /// an empty digest value, and the content replaced after signing
+    EmptySwap,
+}
+
+impl DigestFault {
+    /// Value of the message-digest attribute.
+    pub fn value(self, real: &[u8]) -> Vec<u8> {
+        match self {
+            DigestFault::Short(k) => real[..(k as usize).min(real.len().saturating_sub(1))].to_vec(),
+            DigestFault::Long(n) => {
+                let mut v = real.to_vec();
+                v.extend((0..n.clamp(1, 8)).map(|i| i.wrapping_mul(0x3b) ^ 0x80));
+                v
+            }
+            DigestFault::EmptySwap => Vec::new(),
+        }
+    }
+    pub fn label(self) -> &'static str {
+        match self {
+            DigestFault::Short(_) => "tamper:digest-short",
+            DigestFault::Long(_) => "tamper:digest-long",
+            DigestFault::EmptySwap => "tamper:digest-empty-swap",
+        }
+    }
+    /// Replaces the content "after signing" (same change as `ContentAfter`).
+    pub fn swap_content(self, content: &mut Vec<u8>) {
+        if self == DigestFault::EmptySwap {
+            swap_content(content)
+        }
+    }
+}
+
+/// The content as replaced after signing.
+pub fn swap_content(content: &mut Vec<u8>) {
+    if let Some(b) = content.first_mut() {
+        *b ^= 0x01;
+    } else {
+        content.push(0);
+    }
+}
+
+/// Short (0, 1, 16, 31 octets) 4 : long (1..=8 extra octets) 3 : empty + swapped content 2.
+pub fn digest_fault_strategy() -> BoxedStrategy<DigestFault> {
+    prop_oneof![
+        4 => prop::sample::select(vec![0u8, 1, 16, 31]).prop_map(DigestFault::Short),
+        3 => (1u8..=8).prop_map(DigestFault::Long),
+        2 => Just(DigestFault::EmptySwap),
+    ]
+    .boxed()
+}
+
+/// Takes a finished object apart with the harness parser, replaces its
+/// message-digest attribute according to `f`, signs the attributes again with
+/// the pool key of the embedded EE certificate and writes the object with the
+/// independent writer. Used for objects made by the library's builders.
+pub fn resign_with_digest_fault(bytes: &[u8], f: DigestFault) -> Result<Vec<u8>, Fail> {
+    let view = der::cms_parse(bytes).map_err(|e| Fail::new(format!("harness parser rejects an untampered object: {}", e)))?;
+    let cert = der::cert_parse(view.certs.first().ok_or_else(|| Fail::new("harness: no certificate in object"))?).map_err(Fail::new)?;
+    let key = keys::pool()
+        .spki
+        .iter()
+        .position(|s| s.as_slice() == cert.spki.as_slice())
+        .ok_or_else(|| Fail::new("harness: EE key of a library-built object is not a pool key"))?;
+    let idx = view.attr_index(oids::MESSAGE_DIGEST).ok_or_else(|| Fail::new("library-built object without message-digest attribute"))?;
+    let mut cms = view.to_cms(CmsOpts { sig_alg_null: true, ..CmsOpts::default() });
+    cms.attrs[idx] = der::attr_message_digest(&f.value(&keys::sha256(&view.content)));
+    cms.signature = keys::raw_sign(key, &der::attrs_to_be_signed(&cms.attrs));
+    f.swap_content(&mut cms.content);
+    Ok(cms.encode())
+}
+
 #[derive(Clone, Copy, Debug, PartialEq, Eq, Serialize, Deserialize)]
 pub enum Tamper {
     None,
@@ -665,6 +846,9 @@ pub enum Tamper {
     EeAki,
     /// validated under the trust anchor of another key
     OtherIssuer,
+    /// message-digest attribute of the wrong length (prefix of the real
+    /// digest / real digest plus extra octets), attributes re-signed
+    DigestLen(DigestFault),
 }
 
 impl Tamper {
@@ -683,6 +867,7 @@ impl Tamper {
             Tamper::EeWrongSigner => "tamper:ee-wrong-signer",
             Tamper::EeAki => "tamper:ee-aki",
             Tamper::OtherIssuer => "tamper:other-issuer",
+            Tamper::DigestLen(f) => f.label(),
         }
     }
     fn ee_fault(self) -> EeFault {
@@ -697,15 +882,15 @@ impl Tamper {
         matches!(
             self,
             Tamper::DigestAttr | Tamper::ContentAfter | Tamper::SigOtherBytes | Tamper::WrongKey | Tamper::Sid
-                | Tamper::SigFlip(_) | Tamper::AttrsFlip(_) | Tamper::ContentFlip(_)
+                | Tamper::SigFlip(_) | Tamper::AttrsFlip(_) | Tamper::ContentFlip(_) | Tamper::DigestLen(_)
         )
     }
-    /// Tampers that can be applied to the bytes of a finished object.
+    /// Tampers that can be applied to a finished (library-built) object.
     fn post_hoc(self) -> bool {
         matches!(
             self,
             Tamper::None | Tamper::SigFlip(_) | Tamper::AttrsFlip(_) | Tamper::ContentFlip(_) | Tamper::CertTbsFlip(_)
-                | Tamper::OtherIssuer
+                | Tamper::OtherIssuer | Tamper::DigestLen(_)
         )
     }
 }
@@ -714,7 +899,8 @@ pub fn flip_strategy() -> BoxedStrategy<Flip> {
     (any::<u16>(), 0u8..8).prop_map(|(pos, bit)| Flip { pos, bit }).boxed()
 }
 
-/// All tamper kinds; `none_weight` of 24 parts are untampered.
+/// All tamper kinds; `none_weight` parts are untampered, 12 parts one each of
+/// the single-point tampers, 3 parts a digest attribute of the wrong length.
 pub fn tamper_strategy(none_weight: u32) -> BoxedStrategy<Tamper> {
     prop_oneof![
         none_weight => Just(Tamper::None),
@@ -730,6 +916,7 @@ pub fn tamper_strategy(none_weight: u32) -> BoxedStrategy<Tamper> {
         1 => Just(Tamper::EeWrongSigner),
         1 => Just(Tamper::EeAki),
         1 => Just(Tamper::OtherIssuer),
+        3 => digest_fault_strategy().prop_map(Tamper::DigestLen),
     ]
     .boxed()
 }
@@ -742,6 +929,7 @@ fn post_hoc_tamper_strategy(none_weight: u32) -> BoxedStrategy<Tamper> {
         1 => flip_strategy().prop_map(Tamper::ContentFlip),
         1 => flip_strategy().prop_map(Tamper::CertTbsFlip),
         1 => Just(Tamper::OtherIssuer),
+        2 => digest_fault_strategy().prop_map(Tamper::DigestLen),
     ]
     .boxed()
 }
@@ -783,6 +971,18 @@ pub fn tamper_bytes(bytes: &mut Vec<u8>, t: Tamper) -> Result<(), Fail> {
     }
 }
 
+/// Applies a tamper to an object made by one of the library's builders: the
+/// byte-level ones directly, a digest attribute of the wrong length by
+/// re-signing with the EE's pool key (`resign_with_digest_fault`); the
+/// re-signed object must be one the harness verifier rejects, too.
+pub fn tamper_built(bytes: &mut Vec<u8>, t: Tamper) -> Result<(), Fail> {
+    if let Tamper::DigestLen(f) = t {
+        *bytes = resign_with_digest_fault(bytes, f)?;
+        return check_own_verifier(bytes, t);
+    }
+    tamper_bytes(bytes, t)
+}
+
 /// Assembles an object with the independent writer, applying `tamper`.
 /// Returns the encoded object and the size of the signed-attribute content.
 pub fn assemble(
@@ -800,7 +1000,6 @@ pub fn assemble(
     let cert_der = cert.to_captured().into_bytes().to_vec();
     let key = ee.key as usize % POOL_SIZE;
     let mut cms = Cms::standard(ct, &content, cert_der, vec![], key, opts.st(), &[], opts.cms());
-    let attrs_len = der::attrs_content_len(&cms.attrs);
     match tamper {
         Tamper::DigestAttr => {
             let mut other = content.clone();
@@ -808,13 +1007,12 @@ pub fn assemble(
             cms.attrs[1] = der::attr_message_digest(&keys::sha256(&other));
             cms.signature = keys::raw_sign(key, &der::attrs_to_be_signed(&cms.attrs));
         }
-        Tamper::ContentAfter => {
-            if let Some(b) = cms.content.first_mut() {
-                *b ^= 0x01;
-            } else {
-                cms.content.push(0);
-            }
+        Tamper::DigestLen(f) => {
+            cms.attrs[1] = der::attr_message_digest(&f.value(&keys::sha256(&content)));
+            cms.signature = keys::raw_sign(key, &der::attrs_to_be_signed(&cms.attrs));
+            f.swap_content(&mut cms.content);
         }
+        Tamper::ContentAfter => swap_content(&mut cms.content),
         Tamper::SigOtherBytes => {
             let mut a = cms.attrs.clone();
             a[2] = der::attr_signing_time(TimeEnc::new(opts.st + 1, false));
@@ -828,6 +1026,7 @@ pub fn assemble(
         }
         _ => {}
     }
+    let attrs_len = der::attrs_content_len(&cms.attrs);
     let mut bytes = cms.encode();
     tamper_bytes(&mut bytes, tamper)?;
     Ok((bytes, attrs_len))
@@ -855,8 +1054,71 @@ fn check_own_verifier(bytes: &[u8], tamper: Tamper) -> CheckResult {
     Ok(())
 }
 
-fn crl_callback(ok: bool) -> impl FnOnce(&Cert) -> Result<(), ValidationError> {
-    move |_| if ok { Ok(()) } else { Err(VerificationError::new("certificate revoked (harness callback)").into()) }
+/// The revocation check handed to `process()`: it decides by looking up the
+/// serial number of the certificate it is asked about in a revocation set
+/// (as every real callback does) and records which certificate that was.
+struct CrlOracle {
+    revoked: Vec<Serial>,
+    /// (subject key identifier, serial number) of each certificate asked about
+    asked: RefCell<Vec<(Vec<u8>, Serial)>>,
+}
+
+impl CrlOracle {
+    /// The set always holds a serial nobody was issued; the EE certificate's
+    /// if `ee_revoked`, the issuer's own if `issuer_revoked` (which says
+    /// nothing about the EE certificate and must not change the verdict).
+    fn new(ee_revoked: bool, issuer_revoked: bool) -> Self {
+        let mut revoked: Vec<Serial> = vec![0x7fff_0001u64.into()];
+        if ee_revoked {
+            revoked.push(EE_SERIAL.into());
+            revoked.push(BUILDER_SERIAL.into());
+        }
+        if issuer_revoked {
+            revoked.push(TA_SERIAL.into());
+        }
+        CrlOracle { revoked, asked: RefCell::new(Vec::new()) }
+    }
+
+    fn callback(&self) -> impl FnOnce(&Cert) -> Result<(), ValidationError> + '_ {
+        move |cert| {
+            self.asked.borrow_mut().push((cert.subject_key_identifier().as_slice().to_vec(), cert.serial_number()));
+            if self.revoked.contains(&cert.serial_number()) {
+                Err(VerificationError::new("certificate revoked (harness callback)").into())
+            } else {
+                Ok(())
+            }
+        }
+    }
+
+    /// "The CRL callback's verdict is honoured": the callback must have been
+    /// asked about the EE certificate embedded in the object (as the harness'
+    /// own parser sees it) and about nothing else, and no object is accepted
+    /// without having asked.
+    fn check(&self, what: &str, bytes: &[u8], accepted: bool) -> CheckResult {
+        let asked = self.asked.borrow();
+        let ee = der::cms_parse(bytes).ok().and_then(|v| v.certs.first().and_then(|c| der::cert_parse(c).ok()));
+        if let Some(ee) = &ee {
+            for (ski, serial) in asked.iter() {
+                let same = ee.ski.as_deref() == Some(ski.as_slice()) && Serial::from_slice(&ee.serial).ok() == Some(*serial);
+                ensure_sig!(
+                    same,
+                    SIG_CRL_CERT,
+                    "{}: the CRL callback was asked about a certificate that is not the object's EE certificate (serial {}, \
+                     subject key identifier {:02x?}; the EE certificate has serial {:02x?}): the verdict on the EE certificate is never obtained",
+                    what, serial, ski, ee.serial
+                );
+            }
+        }
+        if accepted {
+            ensure_sig!(
+                asked.len() == 1,
+                SIG_CRL_CERT,
+                "{}: object accepted through process() although the CRL callback was asked {} times",
+                what, asked.len()
+            );
+        }
+        Ok(())
+    }
 }
 
 fn issuer_for(ee: &EeSpec, t: Tamper) -> &'static ResourceCert {
@@ -897,6 +1159,9 @@ fn label_common(obs: &mut Obs, tamper: Tamper, attrs_len: usize, expect: bool, s
     obs.label(tamper.label());
     obs.label_if(attrs_len >= 128, "attrs>=128");
     obs.label_if((126..=129).contains(&attrs_len), "attrs-126..129");
+    obs.label_if(attrs_len >= 256, "attrs>=256");
+    obs.label_if((254..=258).contains(&attrs_len), "attrs-254..258");
+    obs.label_if(attrs_len == 256, "attrs=256");
     obs.label(if expect { "expect-accept" } else { "expect-reject" });
     obs.label(if strict { "strict" } else { "relaxed" });
 }
@@ -911,24 +1176,29 @@ pub struct Generic {
     pub ee: EeSpec,
     pub strict: bool,
     pub eval: Eval,
-    /// Some(callback verdict): go through `SignedObject::process` (wall clock)
+    /// Some(callback verdict): go through `SignedObject::process` (wall clock);
+    /// the verdict is false iff the EE certificate's serial is in the
+    /// revocation set the callback consults
     pub process: Option<bool>,
     pub tamper: Tamper,
+    /// the revocation set also holds the issuer certificate's serial
+    #[serde(default)]
+    pub issuer_revoked: bool,
 }
 
 fn generic_strategy(_: Tier) -> BoxedStrategy<Generic> {
     let direct = (ee_strategy(false), eval_strategy(), Just(None::<bool>)).boxed();
     let via_process = (ee_strategy(true), Just(Eval::Mid), prop::bool::weighted(0.7).prop_map(Some)).boxed();
     (
-        ct_strategy(),
+        sized_ct_strategy(),
         content_strategy(),
-        opts_strategy(),
         prop_oneof![3 => direct, 1 => via_process],
         any::<bool>(),
-        tamper_strategy(8),
+        tamper_strategy(10),
+        prop::bool::weighted(0.3),
     )
-        .prop_map(|(ct, content, opts, (ee, eval, process), strict, tamper)| Generic {
-            ct, content, opts, ee, strict, eval, process, tamper,
+        .prop_map(|((ct, opts), content, (ee, eval, process), strict, tamper, issuer_revoked)| Generic {
+            ct, content, opts, ee, strict, eval, process, tamper, issuer_revoked,
         })
         .boxed()
 }
@@ -945,6 +1215,7 @@ fn run_generic(c: &Generic, obs: &mut Obs) -> CheckResult {
     let in_window = via_process || (c.ee.nb <= t && t <= c.ee.na);
     let crl_ok = if via_process { c.process.unwrap_or(true) } else { true };
     let expect = c.tamper == Tamper::None && in_window && res_ok && crl_ok;
+    let crl = CrlOracle::new(!crl_ok, c.issuer_revoked);
 
     let got: Result<(), String> = match SignedObject::decode(bytes.as_slice(), c.strict) {
         Err(e) => Err(format!("decode: {}", e)),
@@ -953,7 +1224,7 @@ fn run_generic(c: &Generic, obs: &mut Obs) -> CheckResult {
                 return Err(Fail::new("decoded content differs from the encoded content"));
             }
             if via_process {
-                obj.process(issuer, c.strict, crl_callback(crl_ok)).map(|_| ()).map_err(|e| e.to_string())
+                obj.process(issuer, c.strict, crl.callback()).map(|_| ()).map_err(|e| e.to_string())
             } else {
                 obj.validate_at(issuer, c.strict, lib_time(t)).map(|_| ()).map_err(|e| e.to_string())
             }
@@ -965,18 +1236,25 @@ fn run_generic(c: &Generic, obs: &mut Obs) -> CheckResult {
     obs.label_if(!res_ok, "ee-overclaim");
     obs.label_if(via_process, "via-process");
     obs.label_if(via_process && !crl_ok, "crl-callback-err");
+    obs.label_if(via_process && c.issuer_revoked, "crl-issuer-serial-listed");
+    obs.label_if(c.tamper == Tamper::Sid && !via_process, "sid-via-validate_at");
+    obs.label_if(c.tamper == Tamper::Sid && via_process, "sid-via-process");
+    if via_process {
+        crl.check("generic", &bytes, got.is_ok())?;
+    }
     obs.label_if(c.opts.st().is_generalized(), "signing-time:generalized");
     obs.label_if(c.opts.sig_sha256rsa, "sigalg:sha256WithRSA");
     // DER SET OF order of the three attributes (depends on their sizes)
-    let ct_attr = 17 + ct.len();
-    let st_attr = if c.opts.st().is_generalized() { 30 } else { 28 };
-    obs.label(if ct_attr > 47 {
-        "order:st,md,ct"
-    } else if ct_attr > st_attr {
+    let ct_attr = der::attr_content_type(&ct);
+    let before = |other: &[u8]| der::der_set_cmp(&ct_attr, other) == std::cmp::Ordering::Less;
+    obs.label(if before(&der::attr_signing_time(c.opts.st())) {
+        "order:ct,st,md"
+    } else if before(&der::attr_message_digest(&[0u8; 32])) {
         "order:st,ct,md"
     } else {
-        "order:ct,st,md"
+        "order:st,md,ct"
     });
+    obs.label_if(ct.len() >= 128, "ct-oid>=128");
     obs.nontrivial_if(attrs_len >= 128 || c.tamper != Tamper::None);
     compare("generic", expect, &got, attrs_len, &|| {
         format!("tamper={:?} eval={:?} in_window={} res_ok={} crl_ok={} strict={}", c.tamper, c.eval, in_window, res_ok, crl_ok, c.strict)
@@ -1001,8 +1279,12 @@ pub struct RoaCase {
     pub ee: EeSpec,
     pub opts: Opts,
     pub strict: bool,
+    /// false: the EE certificate's serial is in the callback's revocation set
     pub crl_ok: bool,
     pub tamper: Tamper,
+    /// the revocation set also holds the issuer certificate's serial
+    #[serde(default)]
+    pub issuer_revoked: bool,
 }
 
 /// ROA prefix drawn relative to the EE's (or issuer's) blocks.
@@ -1041,10 +1323,10 @@ fn roa_strategy(_: Tier) -> BoxedStrategy<RoaCase> {
         ee_strategy(true),
         opts_strategy(),
         any::<bool>(),
-        prop::bool::weighted(0.85),
+        (prop::bool::weighted(0.85), prop::bool::weighted(0.3)),
         tamper_strategy(40),
     )
-        .prop_map(|(builder, as_id, r4, r6, mut ee, opts, strict, crl_ok, tamper)| {
+        .prop_map(|(builder, as_id, r4, r6, mut ee, opts, strict, (crl_ok, issuer_revoked), tamper)| {
             // the EE of a ROA has no AS resources
             ee.asn = AsRes::Missing;
             let mut ee = ee.normalize();
@@ -1086,7 +1368,7 @@ fn roa_strategy(_: Tier) -> BoxedStrategy<RoaCase> {
                     tamper = Tamper::None;
                 }
             }
-            RoaCase { builder, as_id, v4, v6, ee, opts, strict, crl_ok, tamper }
+            RoaCase { builder, as_id, v4, v6, ee, opts, strict, crl_ok, tamper, issuer_revoked }
         })
         .boxed()
 }
@@ -1094,7 +1376,7 @@ fn roa_strategy(_: Tier) -> BoxedStrategy<RoaCase> {
 fn sigobj_builder(ee: &EeSpec, st: i64) -> SignedObjectBuilder {
     let u = rsync_uri();
     let mut b = SignedObjectBuilder::new(
-        3u64.into(),
+        BUILDER_SERIAL.into(),
         Validity::new(lib_time(ee.nb), lib_time(ee.na)),
         u.clone(),
         u.clone(),
@@ -1147,7 +1429,7 @@ fn run_roa(c: &RoaCase, obs: &mut Obs) -> CheckResult {
             .map_err(|e| Fail::new(format!("RoaBuilder::finalize failed: {}", e)))?;
         let mut bytes = roa.to_captured().into_bytes().to_vec();
         let attrs_len = verify_library_built(&bytes, issuer_idx)?;
-        tamper_bytes(&mut bytes, c.tamper)?;
+        tamper_built(&mut bytes, c.tamper)?;
         // EE resources are exactly the prefixes, Refuse policy
         let spec = EeSpec {
             v4: if c.v4.is_empty() { Res::Missing } else { Res::Blocks(c.v4.iter().map(|r| r.p).collect()) },
@@ -1173,9 +1455,10 @@ fn run_roa(c: &RoaCase, obs: &mut Obs) -> CheckResult {
     };
     let expect = c.tamper == Tamper::None && val.is_some() && covered && c.crl_ok;
     let issuer = issuer_for(&c.ee, c.tamper);
+    let crl = CrlOracle::new(!c.crl_ok, c.issuer_revoked);
     let got: Result<(), String> = match Roa::decode(bytes.as_slice(), c.strict) {
         Err(e) => Err(format!("decode: {}", e)),
-        Ok(roa) => match roa.process(issuer, c.strict, crl_callback(c.crl_ok)) {
+        Ok(roa) => match roa.process(issuer, c.strict, crl.callback()) {
             Err(e) => Err(e.to_string()),
             Ok((_, att)) => {
                 // the accepted attestation carries exactly the encoded prefixes
@@ -1197,7 +1480,9 @@ fn run_roa(c: &RoaCase, obs: &mut Obs) -> CheckResult {
     obs.label_if(val.is_some() && !covered, "uncovered-prefix");
     obs.label_if(val.is_some() && covered, "all-covered");
     obs.label_if(!c.crl_ok, "crl-callback-err");
+    obs.label_if(c.issuer_revoked, "crl-issuer-serial-listed");
     obs.label_if(c.ee.trim, "ee-trim");
+    crl.check("roa", &bytes, got.is_ok())?;
     obs.nontrivial_if(all.len() >= 2 || c.tamper != Tamper::None || attrs_len >= 128);
     compare("roa", expect, &got, attrs_len, &|| {
         format!("tamper={:?} ee_ok={} covered={} crl_ok={} validated={:?}", c.tamper, val.is_some(), covered, c.crl_ok, val)
@@ -1214,8 +1499,12 @@ pub struct AspaCase {
     pub ee: EeSpec,
     pub opts: Opts,
     pub strict: bool,
+    /// false: the EE certificate's serial is in the callback's revocation set
     pub crl_ok: bool,
     pub tamper: Tamper,
+    /// the revocation set also holds the issuer certificate's serial
+    #[serde(default)]
+    pub issuer_revoked: bool,
 }
 
 fn aspa_strategy(_: Tier) -> BoxedStrategy<AspaCase> {
@@ -1225,10 +1514,16 @@ fn aspa_strategy(_: Tier) -> BoxedStrategy<AspaCase> {
         1 => dense_u32(),
     ];
     // EE for an ASPA: mostly AS blocks only; sometimes with IP resources or inheritance
-    let ee = (ee_strategy(true), 0u8..10).prop_map(|(mut ee, k)| {
+    // (k = 10: IP extensions present but trimmed to nothing under the issuer)
+    let ee = (ee_strategy(true), 0u8..11).prop_map(|(mut ee, k)| {
         if k < 7 {
             ee.v4 = Res::Missing;
             ee.v6 = Res::Missing;
+        }
+        if k == 10 {
+            ee.trim = true;
+            ee.v4 = Res::Blocks(vec![v4_table(false)[ee.key as usize % 2 * 6]]);
+            ee.v6 = if ee.issuer % 2 == 0 { Res::Missing } else { Res::Blocks(vec![v6_table(false)[1]]) };
         }
         if k < 6 && !matches!(ee.asn, AsRes::Blocks(_)) {
             ee.asn = AsRes::Blocks(vec![AS_IN[(k % 4) as usize]]);
@@ -1242,17 +1537,17 @@ fn aspa_strategy(_: Tier) -> BoxedStrategy<AspaCase> {
         ee,
         opts_strategy(),
         any::<bool>(),
-        prop::bool::weighted(0.85),
+        (prop::bool::weighted(0.85), prop::bool::weighted(0.3)),
         tamper_strategy(40),
     )
-        .prop_map(|(builder, customer, providers, ee, opts, strict, crl_ok, tamper)| {
+        .prop_map(|(builder, customer, providers, ee, opts, strict, (crl_ok, issuer_revoked), tamper)| {
             let mut providers: Vec<u32> = providers.into_iter().filter(|&p| p != customer).collect();
             if providers.is_empty() {
                 providers.push(customer.wrapping_add(1));
             }
             providers.sort_unstable();
             let tamper = if builder && !tamper.post_hoc() { Tamper::None } else { tamper };
-            AspaCase { builder, customer, providers, ee, opts, strict, crl_ok, tamper }
+            AspaCase { builder, customer, providers, ee, opts, strict, crl_ok, tamper, issuer_revoked }
         })
         .boxed()
 }
@@ -1268,7 +1563,7 @@ fn run_aspa(c: &AspaCase, obs: &mut Obs) -> CheckResult {
             .map_err(|e| Fail::new(format!("AspaBuilder::finalize failed: {}", e)))?;
         let mut bytes = aspa.to_captured().into_bytes().to_vec();
         let attrs_len = verify_library_built(&bytes, issuer_idx)?;
-        tamper_bytes(&mut bytes, c.tamper)?;
+        tamper_built(&mut bytes, c.tamper)?;
         let spec = EeSpec {
             v4: Res::Missing,
             v6: Res::Missing,
@@ -1290,9 +1585,10 @@ fn run_aspa(c: &AspaCase, obs: &mut Obs) -> CheckResult {
     let no_inherit = spec.asn != AsRes::Inherit;
     let expect = c.tamper == Tamper::None && val.is_some() && customer_in && no_ip && no_inherit && c.crl_ok;
     let issuer = issuer_for(&c.ee, c.tamper);
+    let crl = CrlOracle::new(!c.crl_ok, c.issuer_revoked);
     let got: Result<(), String> = match Aspa::decode(bytes.as_slice(), c.strict) {
         Err(e) => Err(format!("decode: {}", e)),
-        Ok(aspa) => match aspa.process(issuer, c.strict, crl_callback(c.crl_ok)) {
+        Ok(aspa) => match aspa.process(issuer, c.strict, crl.callback()) {
             Err(e) => Err(e.to_string()),
             Ok((_, att)) => {
                 ensure_eq!(att.customer_as().into_u32(), c.customer, "customer of the accepted ASPA");
@@ -1307,8 +1603,11 @@ fn run_aspa(c: &AspaCase, obs: &mut Obs) -> CheckResult {
     obs.label_if(val.is_none(), "ee-overclaim");
     obs.label_if(val.is_some() && !customer_in, "customer-outside");
     obs.label_if(!no_ip, "ee-has-ip");
+    obs.label_if(!no_ip && val.as_ref().map(|v| v.v4.is_empty() && v.v6.is_empty()).unwrap_or(false), "ee-ip-trimmed-to-nothing");
     obs.label_if(!no_inherit, "ee-as-inherit");
     obs.label_if(!c.crl_ok, "crl-callback-err");
+    obs.label_if(c.issuer_revoked, "crl-issuer-serial-listed");
+    crl.check("aspa", &bytes, got.is_ok())?;
     obs.nontrivial_if(c.providers.len() >= 2 || c.tamper != Tamper::None || attrs_len >= 128);
     compare("aspa", expect, &got, attrs_len, &|| {
         format!(
@@ -1381,7 +1680,7 @@ fn run_mft(c: &MftCase, obs: &mut Obs) -> CheckResult {
             .map_err(|e| Fail::new(format!("into_manifest failed: {}", e)))?;
         let mut bytes = m.to_captured().into_bytes().to_vec();
         let attrs_len = verify_library_built(&bytes, issuer_idx)?;
-        tamper_bytes(&mut bytes, c.tamper)?;
+        tamper_built(&mut bytes, c.tamper)?;
         (bytes, attrs_len)
     } else {
         let entries: Vec<der::MftEntry> = c
@@ -1439,8 +1738,8 @@ pub struct BuiltCase {
 }
 
 fn built_strategy(_: Tier) -> BoxedStrategy<BuiltCase> {
-    (ct_strategy(), content_strategy(), ee_strategy(false), opts_strategy(), any::<bool>(), eval_strategy(), post_hoc_tamper_strategy(15))
-        .prop_map(|(ct, content, ee, opts, strict, eval, tamper)| BuiltCase { ct, content, ee, st: opts.st, strict, eval, tamper })
+    (sized_ct_strategy(), content_strategy(), ee_strategy(false), any::<bool>(), eval_strategy(), post_hoc_tamper_strategy(15))
+        .prop_map(|((ct, opts), content, ee, strict, eval, tamper)| BuiltCase { ct, content, ee, st: opts.st, strict, eval, tamper })
         .boxed()
 }
 
@@ -1473,7 +1772,7 @@ fn run_built(c: &BuiltCase, obs: &mut Obs) -> CheckResult {
     // the builder signs under the Refuse policy
     let spec = EeSpec { trim: false, ..c.ee.clone() };
     let attrs_len = verify_library_built(&bytes, issuer_idx)?;
-    tamper_bytes(&mut bytes, c.tamper)?;
+    tamper_built(&mut bytes, c.tamper)?;
     let res_ok = validated(&spec).is_some();
     let t = c.eval.time(c.ee.nb, c.ee.na);
     let in_window = c.ee.nb <= t && t <= c.ee.na;
@@ -1515,9 +1814,19 @@ const TAMPER_FLOORS: &[(&str, f64)] = &[
     ("tamper:ee-wrong-signer", 0.02),
     ("tamper:ee-aki", 0.02),
     ("tamper:other-issuer", 0.02),
-    ("attrs>=128", 0.12),
-    ("attrs-126..129", 0.04),
-    ("expect-accept", 0.15),
+    ("tamper:digest-short", 0.025),
+    ("tamper:digest-long", 0.018),
+    ("tamper:digest-empty-swap", 0.012),
+    ("sid-via-validate_at", 0.012),
+    ("sid-via-process", 0.004),
+    ("attrs>=128", 0.25),
+    ("attrs-126..129", 0.06),
+    ("attrs>=256", 0.12),
+    ("attrs-254..258", 0.06),
+    ("attrs=256", 0.012),
+    ("ct-oid>=128", 0.15),
+    ("crl-issuer-serial-listed", 0.03),
+    ("expect-accept", 0.10),
     ("out-of-window", 0.08),
     ("ee-overclaim", 0.04),
     ("crl-callback-err", 0.02),
@@ -1557,10 +1866,13 @@ pub fn property() -> Property {
                     ("writer:der.rs", 0.3),
                     ("uncovered-prefix", 0.1),
                     ("all-covered", 0.15),
-                    ("expect-accept", 0.1),
+                    ("expect-accept", 0.08),
                     ("crl-callback-err", 0.05),
+                    ("crl-issuer-serial-listed", 0.12),
                     ("ee-overclaim", 0.03),
                     ("ee-trim", 0.08),
+                    ("tamper:digest-short", 0.01),
+                    ("tamper:digest-long", 0.008),
                 ],
             }
             .boxed(),
@@ -1573,9 +1885,13 @@ pub fn property() -> Property {
                     ("writer:AspaBuilder", 0.12),
                     ("customer-outside", 0.1),
                     ("ee-has-ip", 0.08),
+                    ("ee-ip-trimmed-to-nothing", 0.03),
                     ("ee-as-inherit", 0.02),
-                    ("expect-accept", 0.15),
+                    ("expect-accept", 0.09),
                     ("crl-callback-err", 0.05),
+                    ("crl-issuer-serial-listed", 0.12),
+                    ("tamper:digest-short", 0.01),
+                    ("tamper:digest-long", 0.008),
                 ],
             }
             .boxed(),
@@ -1584,7 +1900,14 @@ pub fn property() -> Property {
                 strategy: mft_strategy,
                 cases: |t| t.pick(48_000, 300_000),
                 run: run_mft,
-                floors: &[("writer:into_manifest", 0.2), ("expect-accept", 0.2), ("out-of-window", 0.08)],
+                floors: &[
+                    ("writer:into_manifest", 0.2),
+                    ("expect-accept", 0.2),
+                    ("out-of-window", 0.08),
+                    ("tamper:sid", 0.006),
+                    ("tamper:digest-short", 0.012),
+                    ("tamper:digest-long", 0.01),
+                ],
             }
             .boxed(),
             PropSub {
@@ -1592,7 +1915,17 @@ pub fn property() -> Property {
                 strategy: built_strategy,
                 cases: |t| t.pick(72_000, 500_000),
                 run: run_built,
-                floors: &[("attrs>=128", 0.12), ("attrs-126..129", 0.04), ("expect-accept", 0.2), ("out-of-window", 0.08)],
+                floors: &[
+                    ("attrs>=128", 0.25),
+                    ("attrs-126..129", 0.07),
+                    ("attrs>=256", 0.12),
+                    ("attrs-254..258", 0.07),
+                    ("attrs=256", 0.012),
+                    ("tamper:digest-short", 0.018),
+                    ("tamper:digest-long", 0.012),
+                    ("expect-accept", 0.15),
+                    ("out-of-window", 0.08),
+                ],
             }
             .boxed(),
         ],
